@@ -35,7 +35,7 @@ func histProbe() {
 		},
 		OnBlock: func(i int, height int64, resp *abci.ResponseFinalizeBlock) {
 			for k, r := range resp.TxResults {
-				if r.Code != 0 && (i > 295 || i == 20) {
+				if r.Code != 0 && (i > 295 || i <= 20) {
 					fmt.Println("blk", i, "tx", k, "code", r.Code, r.Log[:min(len(r.Log), 150)])
 				}
 			}
